@@ -4,7 +4,12 @@ package eng
 // ResponseWriters are ordinary (harness or library) code.
 
 import (
+	"go/token"
+	"go/types"
+	"net/http"
 	"net/textproto"
+	"net/url"
+	"path"
 
 	"golang.org/x/tools/go/ssa"
 )
@@ -74,5 +79,100 @@ func init() {
 			n.Vals = append(n.Vals, append(Slice{}, m.Vals[i].(Slice)...))
 		}
 		return n
+	})
+}
+
+func (g *G) urlValue(u *url.URL) Value {
+	t := g.run.P.NamedType("net/url", "URL")
+	p := new(Value)
+	*p = g.mkStruct(t, map[string]Value{
+		"Scheme": S(u.Scheme), "Opaque": S(u.Opaque), "Host": S(u.Host), "Path": S(u.Path), "RawPath": S(u.RawPath),
+		"OmitHost": Bool{C: u.OmitHost}, "ForceQuery": Bool{C: u.ForceQuery}, "RawQuery": S(u.RawQuery), "Fragment": S(u.Fragment), "RawFragment": S(u.RawFragment),
+	})
+	return p
+}
+
+func (g *G) urlNative(p Value) *url.URL {
+	ptr, _ := p.(*Value)
+	if ptr == nil {
+		g.goPanic("runtime error: invalid memory address or nil pointer dereference (nil *url.URL)")
+	}
+	t := g.run.P.NamedType("net/url", "URL")
+	s := (*ptr).(Struct)
+	f := func(n string) string { return concStr(g, fieldByName(t, s, n)) }
+	return &url.URL{Scheme: f("Scheme"), Opaque: f("Opaque"), Host: f("Host"), Path: f("Path"), RawPath: f("RawPath"), RawQuery: f("RawQuery"), Fragment: f("Fragment"), RawFragment: f("RawFragment"),
+		OmitHost: fieldByName(t, s, "OmitHost").(Bool).C, ForceQuery: fieldByName(t, s, "ForceQuery").(Bool).C}
+}
+
+func init() {
+	reg("net/url.Parse", func(g *G, fr *Frame, fn *ssa.Function, a []Value) Value {
+		u, err := url.Parse(concStr(g, a[0]))
+		if err != nil {
+			return Tuple{(*Value)(nil), g.mkError(S(err.Error()), Iface{})}
+		}
+		return Tuple{g.urlValue(u), Iface{}}
+	})
+	reg("(*net/url.URL).String", func(g *G, fr *Frame, fn *ssa.Function, a []Value) Value {
+		return S(g.urlNative(a[0]).String())
+	})
+	reg("path.Join", func(g *G, fr *Frame, fn *ssa.Function, a []Value) Value {
+		var parts []string
+		for _, e := range a[0].(Slice) {
+			parts = append(parts, concStr(g, e))
+		}
+		return S(path.Join(parts...))
+	})
+	reg("path.Base", func(g *G, fr *Frame, fn *ssa.Function, a []Value) Value {
+		return S(path.Base(concStr(g, a[0])))
+	})
+	reg("net/http.StatusText", func(g *G, fr *Frame, fn *ssa.Function, a []Value) Value {
+		return S(http.StatusText(int(a[0].(Int).C)))
+	})
+	newReq := func(g *G, ctx Value, method, rawurl, body Value) Value {
+		u, err := url.Parse(concStr(g, rawurl))
+		if err != nil {
+			return Tuple{(*Value)(nil), g.mkError(S(err.Error()), Iface{})}
+		}
+		t := g.run.P.NamedType("net/http", "Request")
+		b, _ := body.(Iface)
+		var rc Value = Iface{}
+		if b.T != nil {
+			if types.Implements(b.T, under(g.run.P.NamedType("io", "ReadCloser")).(*types.Interface)) {
+				rc = b
+			} else {
+				nop := g.run.P.Pkgs["io"].Func("NopCloser")
+				rc = g.callFn(&Closure{Fn: nop}, []Value{b}, g.top, token.NoPos)
+			}
+		}
+		m := concStr(g, method)
+		if m == "" {
+			m = "GET"
+		}
+		p := new(Value)
+		*p = g.mkStruct(t, map[string]Value{"Method": S(m), "URL": g.urlValue(u), "Proto": S("HTTP/1.1"), "ProtoMajor": Int{C: 1}, "ProtoMinor": Int{C: 1},
+			"Header": &MapV{KT: types.Typ[types.String]}, "Body": rc, "Host": S(u.Host), "ctx": ctx})
+		return Tuple{p, Iface{}}
+	}
+	reg("net/http.NewRequest", func(g *G, fr *Frame, fn *ssa.Function, a []Value) Value {
+		bg := baseIntrinsics["context.Background"](g, fr, fn, nil)
+		return newReq(g, bg, a[0], a[1], a[2])
+	})
+	reg("net/http.NewRequestWithContext", func(g *G, fr *Frame, fn *ssa.Function, a []Value) Value {
+		return newReq(g, a[0], a[1], a[2], a[3])
+	})
+	reg("(*net/http.Client).Do", func(g *G, fr *Frame, fn *ssa.Function, a []Value) Value {
+		g.model("http.Client.Do = Transport.RoundTrip (no redirects, cookies or timeouts)")
+		cp, _ := a[0].(*Value)
+		if cp == nil {
+			g.goPanic("runtime error: invalid memory address or nil pointer dereference (nil *http.Client)")
+		}
+		ct := g.run.P.NamedType("net/http", "Client")
+		tr, _ := fieldByName(ct, (*cp).(Struct), "Transport").(Iface)
+		if tr.T == nil {
+			g.inconclusive("http.Client without a harness transport (real network)")
+		}
+		rt := g.findMethod(tr.T, "RoundTrip")
+		res := g.callFn(&Closure{Fn: rt}, []Value{tr.V, a[1]}, g.top, token.NoPos).(Tuple)
+		return res
 	})
 }
